@@ -246,6 +246,26 @@ func c02Case(c *core.Case) {
 	litHeredocs = true
 	body, want := litBody(r, opts)
 	litHeredocs = false
+	wide := c.Index%150 == 10
+	if wide {
+		// wide rather than deep: some hundreds of sibling blocks in one body
+		var bodies []*gen.Body
+		body.Walk(func(b *gen.Body, d int) { bodies = append(bodies, b) })
+		b := gen.Pick(r, bodies)
+		n := 150 + r.Intn(300)
+		typ := gen.Pick(r, []string{"wide", "w", "blk"})
+		if _, used := labelCounts[typ]; used {
+			typ = "wide_" + typ // (label counts are per block type across the tree)
+		}
+		labelCounts[typ] = 0
+		for i := 0; i < n; i++ {
+			e, v := litExpr(r, 0, 1)
+			a := &gen.Attr{Name: "a", Expr: e}
+			want[a] = v
+			b.Items = append(b.Items, &gen.Item{Block: &gen.Block{Type: typ, Body: &gen.Body{Items: []*gen.Item{{Attr: a}}}}})
+		}
+		c.Count("wide-bodies")
+	}
 	dup := c.Index%6 == 5
 	if dup {
 		// duplicate one attribute name in a random body that has an attribute
@@ -279,6 +299,9 @@ func c02Case(c *core.Case) {
 		desc := "canonical"
 		if li > 0 {
 			fl = gen.RandomFileLayout(r)
+			if wide && li == 1 {
+				fl.OneLine = true
+			}
 			desc = fmt.Sprintf("layout(indent=%q,comments=%v,crlf=%v,nofinalnl=%v,bom=%v,oneline=%v,bare=%.1f)", fl.Indent, fl.Comments, fl.CRLF, fl.NoFinalNL, fl.BOM, fl.OneLine, fl.BareLabel)
 			for k, on := range map[string]bool{"comments": fl.Comments, "crlf": fl.CRLF, "no-final-newline": fl.NoFinalNL, "bom": fl.BOM, "one-line-blocks": fl.OneLine} {
 				if on {
